@@ -8,6 +8,12 @@
 (* then fails with "database is locked".  The library relies on sqlite3's     *)
 (* default (5 s = 50 units of 100 ms); the critical section is short unless   *)
 (* the holder is descheduled, so holds up to MaxHold (2 s) must be survived.  *)
+(* That bound exists only because the holder is INSIDE a library call that    *)
+(* ends the transaction (INSERT .. COMMIT in one call).  A holder that has    *)
+(* returned from the call with the transaction still open (Workers.tla: an    *)
+(* idle context inside a write transaction, NoIdleTransaction) keeps the lock *)
+(* for as long as its context lives - no bound: Demo_LockWait_idle.cfg        *)
+(* (MaxHold beyond BusyTimeout) shows the waiting writer giving up.           *)
 EXTENDS Naturals, TLC
 CONSTANTS BusyTimeout, MaxHold      \* in units of 100 ms
 VARIABLES hold, t, hstate, cstate   \* hold chosen initially; t = time since C started waiting
